@@ -1179,3 +1179,53 @@ Proof.
   unfold inv_ok_check. rewrite forallb_forall. intros H a Ha.
   apply Z.eqb_eq, H. apply in_map_iff. exists (Z.to_nat a). split; [lia|]. apply in_seq. lia.
 Qed.
+
+(* ---------- the id-keyed Lagrange function (the map-based code of lagrange.go) agrees with the
+   value-keyed one whenever the listed ids have pairwise distinct scalars ---------- *)
+From MPS Require Import Model.Bytes Proofs.BytesProofs.
+Section IdKeyed.
+Open Scope Z_scope.
+Variable q : Z.
+
+Lemma mem_id_In i l : Poly.mem_id i l = true <-> In i l.
+Proof.
+  induction l as [|a l IH]; cbn; [split; [discriminate|tauto]|].
+  rewrite orb_true_iff, bytes_eqb_eq, IH. tauto.
+Qed.
+Lemma dedup_ids_NoDup l : NoDup l -> Poly.dedup_ids l = l.
+Proof.
+  induction 1 as [|a l Hn _ IH]; [reflexivity|]. cbn. rewrite IH.
+  destruct (Poly.mem_id a l) eqn:E; [|reflexivity]. apply mem_id_In in E. tauto.
+Qed.
+Lemma NoDup_map_inj_in {A B} (f : A -> B) l x y :
+  NoDup (map f l) -> In x l -> In y l -> f x = f y -> x = y.
+Proof.
+  induction l as [|a l IH]; cbn; [tauto|]. intros Hnd Hx Hy E.
+  inversion Hnd as [|? ? Hn Hnd']; subst.
+  destruct Hx as [->|Hx], Hy as [->|Hy]; auto.
+  - exfalso. apply Hn. rewrite E. now apply in_map.
+  - exfalso. apply Hn. rewrite <- E. now apply in_map.
+Qed.
+
+Theorem lagrange_ids_value_keyed ids j :
+  NoDup (map (Poly.id_scalar q) ids) -> In j ids ->
+  Poly.lagrange_ids q ids j = Some (Poly.lagrange_coef q (map (Poly.id_scalar q) ids) (Poly.id_scalar q j)).
+Proof.
+  intros Hnd Hj. unfold Poly.lagrange_ids, Poly.lagrange_coef.
+  rewrite (proj2 (mem_id_In j ids) Hj).
+  assert (Hmod : forall b, Poly.id_scalar q b mod q = Poly.id_scalar q b) by (intros; apply Zmod_mod).
+  rewrite Hmod, map_map.
+  rewrite (map_ext (fun x => Poly.id_scalar q x mod q) (Poly.id_scalar q)) by (intros; apply Hmod).
+  rewrite dedup_ids_NoDup by (eapply NoDup_map_inv; exact Hnd).
+  do 3 f_equal. unfold Poly.lag_den.
+  generalize (1 mod q) as acc.
+  assert (Hsub : incl ids ids) by apply incl_refl. revert Hsub.
+  generalize ids at 1 3 4 as l. induction l as [|i l IH]; intros Hsub acc; [reflexivity|].
+  cbn [fold_left map]. rewrite IH by (intros x Hx; apply Hsub; now right). f_equal. f_equal.
+  destruct (bytes_eqb i j) eqn:E.
+  - apply bytes_eqb_eq in E. subst i. now rewrite Z.eqb_refl.
+  - destruct (Z.eqb_spec (Poly.id_scalar q i) (Poly.id_scalar q j)) as [E'|]; [|reflexivity].
+    assert (i = j) by (eapply NoDup_map_inj_in; eauto; apply Hsub; now left).
+    subst i. assert (bytes_eqb j j = true) by now apply bytes_eqb_eq. congruence.
+Qed.
+End IdKeyed.
